@@ -263,7 +263,7 @@ pub fn random_tree(rng: &mut Rng, depth: usize, ns: &[String], consts: bool, min
 /// node or a constant in the middle, also wrapped in a negation and nested below the other operator
 pub fn wide_exprs(rng: &mut Rng, ns: &[String], consts: bool) -> Vec<E> {
     let mut out = vec![];
-    for arity in [5usize, 6, 7, 10, 15, 16, 17, 18, 31, 32, 33, 40, 64, 65] {
+    for arity in [5usize, 6, 7, 8, 9, 10, 12, 13, 15, 16, 17, 18, 20, 21, 31, 32, 33, 40, 64, 65, 100, 127, 128, 129, 255, 256, 257, 1000, 1025] {
         for is_and in [true, false] {
             let mut ops: Vec<E> = (0..arity)
                 .map(|_| {
